@@ -46,6 +46,28 @@ impl<'a> Tok<'a> {
     pub fn f64(&mut self) -> f64 {
         f64::from_bits(u64::from_str_radix(self.word(), 16).expect("bad f64 bits"))
     }
+    /// `~` = "leave this field unset" (the builder then skips the setter call)
+    pub fn string_opt(&mut self) -> Option<String> {
+        if self.it.clone().next() == Some("~") {
+            self.word();
+            return None;
+        }
+        Some(self.string())
+    }
+    pub fn u64_opt(&mut self) -> Option<u64> {
+        if self.it.clone().next() == Some("~") {
+            self.word();
+            return None;
+        }
+        Some(self.u64())
+    }
+    pub fn f64_opt(&mut self) -> Option<f64> {
+        if self.it.clone().next() == Some("~") {
+            self.word();
+            return None;
+        }
+        Some(self.f64())
+    }
     pub fn list<T>(&mut self, mut f: impl FnMut(&mut Self) -> T) -> Vec<T> {
         let n = self.usize();
         (0..n).map(|_| f(self)).collect()
